@@ -244,11 +244,11 @@ func (p *freshPool) wait(base []hashes) {
 				continue
 			}
 			p.rn.mu.Lock()
-			oof := p.rn.outOfFlowOnly(d)
+			attr := p.rn.attribute(d)
 			p.rn.mu.Unlock()
-			if oof {
+			if attr != "" {
 				out.Add(res.Finding{Kind: "judge", Op: "judge:fresh-process", Input: d.HTML, Impl: g.canon, Model: base[i].canon,
-					Reason: "traces differ (" + detail + "); stable once the floats / absolutely positioned boxes are put in flow", Key: "out-of-flow-order", Seed: d.Seed})
+					Reason: "traces differ (" + detail + "); stable once the floats / absolutely positioned boxes are put in flow resp. the grid containers made blocks", Key: attr, Seed: d.Seed})
 				continue
 			}
 			// re-render here for the reference text; the worker's text if it was fetched, else from a new worker
